@@ -49,7 +49,8 @@ CHECKS["C09"] = dict(
           "returns with fuel rank+2, its result satisfies the inductive specification `unfolds` (one entry per line in order "
           "with bf/model/parameters; daughter bare iff in S or without table, else the chain for that daughter with the same S), "
           "the specification determines the chain uniquely; not-found error iff no table. Unbounded in tables, depth, S. "
-          "Tie: generated acyclic table sets rendered to .dec text and parsed by the implementation, all/random stable subsets."),
+          "Tie: generated acyclic table sets rendered to .dec text, read by the implementation AND by the model (Dec/Pipeline.v: front end, "
+          "parse(), build — the same text, nothing pre-computed in Python), all/random stable subsets."),
     design="DESIGN.md §5 C09",
     technique="Coq proof (fuel induction: soundness, determinism, termination under a rank) + differential correspondence")
 CHECKS["C10"] = dict(
@@ -57,7 +58,8 @@ CHECKS["C10"] = dict(
           "of the enumeration `paths`; a tree is enumerated iff it is a complete decay path (`vpath`: one line per decaying "
           "particle, daughters without lines stable); no path twice; length = sum over lines of products of daughters' counts. "
           "Unbounded in shape. Tie: generated acyclic tables with aliases and empty blocks through "
-          "DecFileParser.expand_decay_modes vs build+expand in the model."),
+          "DecFileParser.expand_decay_modes vs the model reading the SAME TEXT (Dec/Pipeline.v: front end, parse() incl. CDecay, build, expand); "
+          "also on a parser object that was first parsed without the charge-conjugate decays, queried, and parsed again."),
     design="DESIGN.md §5 C10",
     technique="Coq proof (nested induction over chain dictionaries, cartesian-product lemmas) + differential correspondence")
 
